@@ -69,6 +69,29 @@ def obj_model(seq):
             "has_file": first_file is not None, "first_file": first_file}
 
 
+def obj_incomplete_array(seq, inc):
+    """Declarations of one array object where declaration i has the incomplete type T[] (inc[i] == 'i') or the
+    complete type T[N] ('c'); file-scope forms only.  Returns (valid, why, elements) - elements = 'N' when some
+    declaration completes the type (6.2.7p3 composite type; an initializer with N elements completes T[]),
+    1 when a tentative definition is still incomplete at the end of the unit (6.9.2p2, p5 EXAMPLE 2),
+    None when the unit has no definition."""
+    m = obj_model(seq)
+    if not m["valid"]:
+        return False, m["why"], None
+    complete = False
+    for k, c in zip(seq, inc):
+        scope, sc, is_tls, init = OBJ_FORMS[k]
+        if scope != "file":
+            return False, "block-scope forms are not combined with incomplete array types", None
+        if c == "i" and sc == "static" and not init:
+            return False, "6.9.2p3 tentative definition with internal linkage and incomplete type", None
+        if c == "c" or init:
+            complete = True
+    if m["defkind"] == "none":
+        return True, "", None
+    return True, "", ("N" if complete else 1)
+
+
 def obj_class(m, fcommon):
     """Declaration-form class used in signatures (root-cause granularity)."""
     return "%s-%s%s|tent=%s|%s" % (m["linkage"], m["defkind"], "-tls" if m["tls"] else "",
@@ -424,3 +447,75 @@ def link_expected(objs, fns):
         v = -1 if f == "-" else 30 + i if f in ("ds", "dsi") else 100
         out.append("fn f%d %d" % (i, v))
     return out
+
+
+# ----------------------------------------------------------------------------------------------------------------
+# String-literal objects (C11 6.4.5p6/p7): every literal denotes an array of static storage duration whose
+# elements are the code units of the text followed by one zero element.  Whether equal (or overlapping) literals
+# share storage is unspecified - only CONTENT is modelled.  x86-64 SysV: little endian, wchar_t = int,
+# char16_t = unsigned short, char32_t = unsigned int.
+# ----------------------------------------------------------------------------------------------------------------
+STR_KINDS = {             # prefix -> (element type as spelled in the generated units, element size)
+    "":   ("char", 1),
+    "u8": ("char", 1),
+    "L":  ("int", 4),
+    "u":  ("unsigned short", 2),
+    "U":  ("unsigned int", 4),
+}
+STR_KIND_ORDER = ["", "u8", "L", "u", "U"]
+STR_LETTERS = ("a", "b", "\0")
+
+
+def str_texts(maxlen, letters=STR_LETTERS):
+    """every text of length 0..maxlen over the letters, shortest first, in alphabet order"""
+    out = [""]
+    layer = [""]
+    for _ in range(maxlen):
+        layer = [t + c for t in layer for c in letters]
+        out += layer
+    return out
+
+
+def str_spelling(kind, text):
+    return kind + '"' + "".join("\\0" if c == "\0" else c for c in text) + '"'
+
+
+def str_nelem(text):
+    return len(text) + 1
+
+
+def str_bytes(kind, text, nelem=None):
+    """object representation of an array of nelem elements initialised by the literal (default: the literal's own
+    array: text + terminating zero); elements beyond the text are zero, elements beyond nelem are dropped"""
+    esz = STR_KINDS[kind][1]
+    units = [ord(c) for c in text] + [0]
+    if nelem is not None:
+        units = (units + [0] * nelem)[:nelem]
+    return b"".join(u.to_bytes(esz, "little") for u in units)
+
+
+def str_relation(bx, by):
+    """relation class of two literal objects given their bytes (root-cause granularity for signatures)"""
+    if bx == by:
+        return "identical"
+    cx, cy = bx.split(b"\0")[0], by.split(b"\0")[0]
+    if cx == cy:
+        return "equal-up-to-first-nul-same-size" if len(bx) == len(by) else "equal-up-to-first-nul-size-differs"
+    if bx.startswith(cy) or by.startswith(cx):
+        return "c-string-prefix"
+    return "same-size" if len(bx) == len(by) else "unrelated"
+
+
+def str_tuple_class(lits):
+    """(relation class, kind class) of a tuple of (kind, text) literals"""
+    bs = [str_bytes(k, t) for k, t in lits]
+    rel = sorted(set(str_relation(bs[i], bs[j]) for i in range(len(bs)) for j in range(i + 1, len(bs))))
+    narrow = [STR_KINDS[k][1] == 1 for k, _ in lits]
+    kinds = "char" if all(narrow) else "wide" if not any(narrow) else "mixed"
+    return "+".join(rel) or "single", kinds
+
+
+def str_may_alias(bx, by):
+    """C11 6.4.5p7: two literal arrays may start at the same address only if they agree over their common length"""
+    n = min(len(bx), len(by))
+    return bx[:n] == by[:n]
